@@ -82,7 +82,7 @@ def plan(tier, seed):
   if tier == 'quick':
     n_scen, chunks = 432, 24
   else:
-    n_scen, chunks = 9216, 64
+    n_scen, chunks = 12288, 64
   per = n_scen // chunks
   specs = [{'mode': 'selftest'}]
   for c in range(chunks):
@@ -353,7 +353,7 @@ def real_run(case, records, bad):
   obs['closed'] = [s.closed for s in sinks]
   # bounded wait; once two cases of this process saw lingering threads the bound
   # shrinks so that a systematic leak does not cost WAIT_S per case
-  deadline = time.time() + (WAIT_S if _LINGER['seen'] < 2 else 0.5)
+  deadline = time.time() + (WAIT_S if _LINGER["seen"] < 2 else 0.05)
   while True:
     alive = [x for x in set(threading.enumerate()) - baseline if x.is_alive()]
     if not alive or time.time() > deadline:
@@ -654,7 +654,7 @@ def subsets(n, tier, rng):
     for k in (1, 2, 3):
       yield from itertools.combinations(range(n), k)
   else:
-    for _ in range(24):
+    for _ in range(40):
       k = rng.randint(1, min(6, n))
       yield tuple(sorted(rng.sample(range(n), k)))
 
